@@ -1,4 +1,4 @@
-import Bardolph.Proofs.SimFrame
+import Bardolph.Proofs.SimIter
 /-!
 Loops for the simulation theorem C01: the layout of an assembled loop, and the iteration lemmas
 for `repeat while` / `repeat` / `repeat n` and the index-variable forms.
@@ -8,9 +8,6 @@ namespace Sim
 open Vm VmSteps Sem Gen
 
 variable {img : Image} {K : Ctx} {stk : Stk} {un : List Val} {σ : S} {s : State} {pc : Nat}
-
-theorem _root_.Bardolph.VmSteps.CodeAt.cast {img : Image} {p p' : Nat} {c : List Instr} (h : CodeAt img p c)
-    (e : p = p') : CodeAt img p' c := e ▸ h
 
 /-! ## the shape of a loop -/
 
@@ -730,7 +727,86 @@ theorem loop_with (f : Nat) (ihC : CountIter img K f) (n : Rv) (hn : RvOK n) (wc
           subst hp'
           exact hi2
 
-theorem loop_step (f : Nat) (ihW : WhileIter img K f) (ihC : CountIter img K f) : LoopGoal img K (f + 1) := by
+theorem withVar_eq (w : Option WithClause) : withVar w = w.map withVarOf := by
+  cases w with
+  | none => rfl
+  | some wc => cases wc <;> rfl
+
+theorem passes_nat (n : Nat) : passes (((n : Int)) : Rat) = n := by
+  have : Loops.passes (((n : Int)) : Rat) = n := by
+    have := Loops.passes_intCast (n : Int)
+    simpa using this
+  exact this
+
+/-- **a loop over names**: `LOOP`, the counter set to 0, the discovery code `disc` (which pushes the
+names `names` and counts them, leaving the source-level state `σd`), the `with` clause, the passes —
+each starting with the next name popped into `lv` —, `END_LOOP` -/
+theorem loop_names (g : Nat) (ihC : CountIter img K g) (disc : List Instr) (lv : String)
+    (w : Option WithClause) (hw : OWithOK w) (body : Block) (hb : FragBlock body) (names : List String)
+    (σ σd σ' : S) (o : Outcome) (s : State) (pc exit : Nat) (stk : Stk)
+    (sim : Sim K stk σ s) (hpc : s.pc = (pc : Int))
+    (hc : CodeAt img pc (resolve (assembleLoop ([.moveq (.int 0) counter] ++ disc ++ withClause w) counterTest
+      [.pop (.var lv)] (genBlock body) (loopPost (withVar w))) pc exit))
+    (hdisc : ∀ (vars : List (LoopVar × Val)) (t : State) (p : Nat), Sim K (stk.inner vars []) σ t →
+      t.pc = (p : Int) → CodeAt img p disc → getVar vars .counter = .int 0 →
+      Exec img t (fun t' => ∃ vars', At K (p + disc.length) (stk.inner vars' (names.map .str)) [] σd t' ∧
+        getVar vars' .counter = .int names.length))
+    (h : iterLoop (g + 1) names lv w body σd = (o, σ')) (ho : o = .normal ∨ o = .brk) :
+    o = .normal ∧ Exec img s (At K (pc + (assembleLoop ([.moveq (.int 0) counter] ++ disc ++ withClause w)
+      counterTest [.pop (.var lv)] (genBlock body) (loopPost (withVar w))).length) stk [] σ') := by
+  have hnum : (Val.int names.length).asNum = some (((names.length : Int) : Rat), false) := rfl
+  -- the counter and the names
+  have hfirst : CodeAt img (pc + 1) ([.moveq (.int 0) counter] ++ disc ++ withClause w) →
+      ∀ t, At K (pc + 1) (stk.inner [] []) [] σ t →
+      Exec img t (fun t' => ∃ vars', At K (pc + 1 + 1 + disc.length) (stk.inner vars' (names.map .str)) [] σd t' ∧
+        getVar vars' .counter = .int names.length) := by
+    intro hcpre t ht
+    refine (exec_moveqLV (.int 0) .counter ht.2 ht.1 hcpre.left.left.head).trans fun t1 ht1 => ?_
+    exact hdisc _ t1 _ ht1.2 ht1.1 hcpre.left.right (getVar_putVar _ _ _)
+  simp only [iterLoop] at h
+  cases w with
+  | none =>
+    simp only at h
+    refine loop_counted g ihC _ (some lv) none body hb names σ σd σ' o s pc exit stk sim hpc hc ?_ h ho
+    intro hcpre t ht
+    refine (hfirst hcpre t ht).mono fun t' ⟨vars', ht', hcnt⟩ => ?_
+    refine ⟨vars', _, _, false, ⟨?_, ht'.2⟩, hcnt, hnum, by simp, passes_nat _⟩
+    rw [ht'.1]; simp [withClause]; omega
+  | some wc =>
+    have hwc : WithOK wc := hw
+    simp only at h
+    split at h
+    · rename_i o' hew
+      simp only [Prod.mk.injEq] at h
+      obtain ⟨rfl, rfl⟩ := h
+      have := evalWith_error hwc g _ σd _ hew
+      rcases ho with rfl | rfl <;> simp at this
+    · simp only [Prod.mk.injEq] at h
+      obtain ⟨rfl, rfl⟩ := h
+      rcases ho with h | h <;> simp at h
+    · rename_i i σ2 hew
+      have hpost : loopPost (withVar (some wc)) = postOf (some (withVarOf wc, i)) := by
+        rw [withVar_eq]; rfl
+      rw [hpost] at hc ⊢
+      refine loop_counted g ihC _ (some lv) (some (withVarOf wc, i)) body hb names σ σ2 σ' o s pc exit stk sim hpc
+        hc ?_ h ho
+      intro hcpre t ht
+      refine (hfirst hcpre t ht).trans fun t1 ⟨vars1, ht1, hcnt1⟩ => ?_
+      have hcw : CodeAt img (pc + 1 + 1 + disc.length) (withCode wc) := by
+        have := hcpre.right
+        rw [withClause_some] at this
+        exact this.cast (by simp; omega)
+      refine (exec_with wc hwc (.int names.length) _ false ht1.2 ht1.1 hcw hcnt1 hnum hew).mono
+        fun t2 ⟨vars2, ht2, hc2, hi2⟩ => ?_
+      refine ⟨vars2, _, _, false, ⟨?_, ht2.2⟩, hc2, hnum, ?_, passes_nat _⟩
+      · rw [ht2.1]; simp [withClause_some]; omega
+      · intro p' hp'
+        simp only [Option.mem_def, Option.some.injEq] at hp'
+        subst hp'
+        exact hi2
+
+theorem loop_step (f : Nat) (ihW : WhileIter img K f) (ihC : CountIter img K f)
+    (ihC1 : ∀ g, g + 1 = f → CountIter img K g) : LoopGoal img K (f + 1) := by
   intro hd body hhd hb σ σ' o s pc exit stk sim hpc hc h ho
   cases hd with
   | forever =>
@@ -747,7 +823,56 @@ theorem loop_step (f : Nat) (ihW : WhileIter img K f) (ihC : CountIter img K f) 
   | cycle n v start =>
     exact loop_with f ihC n hhd.1 (.cycle v start) hhd.2 body hb σ σ' o s pc exit stk sim hpc hc
       (by simp only [execLoop] at h; exact h) ho
-  | _ => exact absurd hhd (by simp [LoopHdrOK])
+  | all lv w =>
+    simp only [execLoop] at h
+    cases f with
+    | zero => simp only [iterLoop, Prod.mk.injEq] at h; rcases ho with rfl | rfl <;> simp at h
+    | succ g =>
+      refine loop_names g (ihC1 g rfl) iterLights lv w hhd body hb _ σ _ σ' o s pc exit stk sim hpc hc ?_ h ho
+      intro vars t p ht hp hcd hcnt
+      refine (exec_iterSets (o := .light) (Or.inl rfl) (.loopVar .current) (Or.inl rfl) 0 ht hp hcd hcnt).mono
+        fun t' ⟨vars', ht', hc'⟩ => ⟨vars', by simpa [namesOf, iterLights, iterSets, iterSkeleton_length] using ht',
+          by simpa [namesOf] using hc'⟩
+  | groups lv w =>
+    simp only [execLoop] at h
+    cases f with
+    | zero => simp only [iterLoop, Prod.mk.injEq] at h; rcases ho with rfl | rfl <;> simp at h
+    | succ g =>
+      refine loop_names g (ihC1 g rfl) (iterSets .group) lv w hhd body hb _ σ _ σ' o s pc exit stk sim hpc hc
+        ?_ h ho
+      intro vars t p ht hp hcd hcnt
+      refine (exec_iterSets (o := .group) (Or.inr (Or.inl rfl)) (.reg .result) (Or.inr rfl) 0 ht hp hcd hcnt).mono
+        fun t' ⟨vars', ht', hc'⟩ => ⟨vars', by simpa [namesOf, iterLights, iterSets, iterSkeleton_length] using ht',
+          by simpa [namesOf] using hc'⟩
+  | locations lv w =>
+    simp only [execLoop] at h
+    cases f with
+    | zero => simp only [iterLoop, Prod.mk.injEq] at h; rcases ho with rfl | rfl <;> simp at h
+    | succ g =>
+      refine loop_names g (ihC1 g rfl) (iterSets .location) lv w hhd body hb _ σ _ σ' o s pc exit stk sim hpc hc
+        ?_ h ho
+      intro vars t p ht hp hcd hcnt
+      refine (exec_iterSets (o := .location) (Or.inr (Or.inr rfl)) (.reg .result) (Or.inr rfl) 0 ht hp hcd
+        hcnt).mono
+        fun t' ⟨vars', ht', hc'⟩ => ⟨vars', by simpa [namesOf, iterLights, iterSets, iterSkeleton_length] using ht',
+          by simpa [namesOf] using hc'⟩
+  | iter items lv w =>
+    simp only [execLoop] at h
+    split at h
+    · rename_i o' he
+      simp only [Prod.mk.injEq] at h
+      obtain ⟨rfl, rfl⟩ := h
+      have := iterNames_error items hhd.1 f σ _ he
+      rcases ho with rfl | rfl <;> simp at this
+    · rename_i names σ1 he
+      cases f with
+      | zero => simp [iterNames] at he
+      | succ g =>
+        refine loop_names g (ihC1 g rfl) (iterItems items) lv w hhd.2 body hb names σ σ1 σ' o s pc exit stk sim
+          hpc hc ?_ h ho
+        intro vars t p ht hp hcd hcnt
+        refine (exec_iterItems items hhd.1 (g + 1) σ σ1 names vars [] t p 0 he ht hp hcd hcnt).mono
+          fun t' ⟨vars', ht', hc'⟩ => ⟨vars', by simpa using ht', by simpa using hc'⟩
 
 theorem stmt_repeat (f : Nat) (ihL : LoopGoal img K f) (hd : LoopHdr) (body : Block) (hhd : LoopHdrOK hd)
     (hb : FragBlock body) : StmtGoal img K (.repeat_ hd body) (f + 1) := by
